@@ -63,6 +63,14 @@ pub const TARGETS: &[FnTarget] = &[
     FnTarget { file: "vm.rs", owner: Some("Vm"), name: "unload_fiber", lean: "vm_unload_fiber", havoc: &[], ignore_cfg_features: &[] },
     FnTarget { file: "vm.rs", owner: Some("Vm"), name: "call_closure", lean: "vm_call_closure", havoc: &[], ignore_cfg_features: &[] },
     FnTarget { file: "vm.rs", owner: Some("Vm"), name: "return_impl", lean: "vm_return_impl", havoc: &[], ignore_cfg_features: &[] },
+    FnTarget { file: "compiler.rs", owner: Some("Parser"), name: "emit_return", lean: "emit_return", havoc: &[], ignore_cfg_features: &[] },
+    FnTarget { file: "compiler.rs", owner: Some("Parser"), name: "return_statement", lean: "return_statement", havoc: &[], ignore_cfg_features: &[] },
+    FnTarget { file: "compiler.rs", owner: Some("Parser"), name: "break_statement", lean: "break_statement", havoc: &[], ignore_cfg_features: &[] },
+    FnTarget { file: "compiler.rs", owner: Some("Parser"), name: "continue_statement", lean: "continue_statement", havoc: &[], ignore_cfg_features: &[] },
+    FnTarget { file: "compiler.rs", owner: Some("Parser"), name: "try_statement", lean: "try_statement", havoc: &[], ignore_cfg_features: &[] },
+    FnTarget { file: "compiler.rs", owner: Some("Parser"), name: "throw_statement", lean: "throw_statement", havoc: &[], ignore_cfg_features: &[] },
+    FnTarget { file: "compiler.rs", owner: Some("Parser"), name: "while_statement", lean: "while_statement", havoc: &[], ignore_cfg_features: &[] },
+    FnTarget { file: "compiler.rs", owner: Some("Parser"), name: "if_statement", lean: "if_statement", havoc: &[], ignore_cfg_features: &[] },
 ];
 
 pub struct FnBodies {
